@@ -550,8 +550,7 @@ func checkC17(p *Prog, res *Result, tier string) {
 	}
 	// ---- R6: the failed-delete discipline on the expiry chains (C07-R4) ----
 	if !c17NoImports {
-		sub7 := newResult("C07")
-		checkC07(p, sub7, tier)
+		sub7 := p.subResult("C07", tier)
 		for _, o := range sub7.Obls {
 			if o.Rule == "C07-R4" && strings.Contains(o.Construct, "expiry site") {
 				res.add("C17-R6", o.Rule+" "+o.Construct, o.Status, o.Pos, o.Detail)
@@ -561,8 +560,7 @@ func checkC17(p *Prog, res *Result, tier string) {
 
 	// ---- R7: adapters' compare-and-delete (C11-R1) ----
 	if !c17NoImports {
-		sub11 := newResult("C11")
-		checkC11(p, sub11, tier)
+		sub11 := p.subResult("C11", tier)
 		for _, o := range sub11.Obls {
 			if o.Rule == "C11-R1" && strings.Contains(o.Construct, "DelCurrent") {
 				res.add("C17-R7", o.Rule+" "+o.Construct, o.Status, o.Pos, o.Detail)
